@@ -156,7 +156,10 @@ def main(argv=None):
         print(json.dumps({"violations": mine, "event_log_sha256": res.get("log_sha"), "rendered": res.get("sample")}, indent=1, default=str))
         want = rp.get("violation", {})
         if mine:
-            same = any(v["oracle"] == want.get("oracle") for v in mine) and res.get("log_sha") == want.get("event_log_sha256")
+            # pinned explicit scenarios (known/, regress/) carry no recorded run to compare with
+            same = not want.get("oracle") or (
+                any(v["oracle"] == want.get("oracle") for v in mine) and res.get("log_sha") == want.get("event_log_sha256")
+            )
             print(f"VIOLATION property={rp['property']} replay={args.replay}" + ("" if same else " (differs from the recorded run)"))
             return 1
         print("replay did not reproduce a violation")
